@@ -139,11 +139,17 @@ func TestChanSim(t *testing.T) {
 			}
 			ticks = j.Stop()
 		})
-		if ticks < 0 || ticks > 8 {
+		if ticks < 0 || ticks > 60 {
 			t.Fatalf("janitor: %d ticks", ticks)
 		}
 		if ticks > 0 {
 			tickRuns++
+		}
+		simtime.Install(simtime.Epoch)
+		var spun int
+		run("spinwait", sc, func() { spun = zzchan.SpinWait() })
+		if spun != 2 {
+			t.Fatalf("spinwait: %d", spun)
 		}
 		simtime.Uninstall()
 		var a, l1, l2 int
